@@ -22,6 +22,7 @@ import (
 	"sync"
 	"time"
 
+	"github.com/bluenviron/gohlslib/v2"
 	"github.com/bluenviron/gortmplib"
 	rtmpcodecs "github.com/bluenviron/gortmplib/pkg/codecs"
 	"github.com/bluenviron/gortsplib/v5"
@@ -43,6 +44,7 @@ import (
 	"github.com/bluenviron/mediamtx/internal/servers/webrtc"
 	"github.com/bluenviron/mediamtx/internal/stream"
 	"github.com/bluenviron/mediamtx/internal/test"
+	"github.com/bluenviron/mediamtx/internal/unit"
 	"github.com/bluenviron/mediamtx/internal/verifutil"
 )
 
@@ -169,6 +171,13 @@ type verifC03PWorld struct {
 	wrtcS    [2]*webrtc.Server
 	wrtcAddr [2]string
 	hc       *http.Client
+
+	// HLS server with two always-remuxed paths (running muxers, real segments) for the cross-path session op
+	hlsX     *hls.Server
+	hlsXAddr string
+	xStreams map[string]*stream.Stream
+	capture  []string // all stub events of the current hlsx op, in order, whatever their author
+	capOn    bool
 }
 
 // SetHLSServer implements the HLS server's path manager interface.
@@ -201,6 +210,10 @@ func (w *verifC03PWorld) rec(author any, kind string, a *defs.PathAccessRequest,
 	if !w.active[id] {
 		w.active[id] = true
 		w.order = append(w.order, id)
+	}
+	if w.capOn {
+		w.capture = append(w.capture, fmt.Sprintf("%s:%s:%s:%s:%s:%s:%d", kind, verifutil.HexS(a.Name), verifC03B(a.Publish),
+			verifC03B(a.SkipAuth), verifC03B(admitted), verifC03B(granted), conf))
 	}
 	w.hist[id] = append(w.hist[id], fmt.Sprintf("%s:%s:%s:%s:%s:%s:%d", kind, verifutil.HexS(a.Name), verifC03B(a.Publish),
 		verifC03B(a.SkipAuth), verifC03B(admitted), verifC03B(granted), conf))
@@ -243,7 +256,11 @@ func (w *verifC03PWorld) AddReader(req defs.PathAddReaderReq) (*defs.PathAddRead
 	if _, ok := w.rec(req.Author, "r", &req.AccessRequest, true, 0); !ok {
 		return nil, w.authErr(&req.AccessRequest)
 	}
-	return &defs.PathAddReaderRes{Path: &verifC03PPath{req.AccessRequest.Name}, Stream: w.strm}, nil
+	strm := w.strm
+	if x, ok := w.xStreams[req.AccessRequest.Name]; ok {
+		strm = x
+	}
+	return &defs.PathAddReaderRes{Path: &verifC03PPath{req.AccessRequest.Name}, Stream: strm}, nil
 }
 
 func (w *verifC03PWorld) AddPublisher(req defs.PathAddPublisherReq) (*defs.PathAddPublisherRes, error) {
@@ -339,11 +356,96 @@ func verifC03PStart() *verifC03PWorld {
 			panic(err)
 		}
 	}
+	w.startHLSX()
 	w.hc = &http.Client{Timeout: 2 * time.Second, CheckRedirect: func(*http.Request, []*http.Request) error { return http.ErrUseLastResponse }}
 	return w
 }
 
+var verifC03PXPaths = []string{"hxa", "hxb"}
+
+// startHLSX: an HLS server whose two paths have running muxers with real segments.
+func (w *verifC03PWorld) startHLSX() {
+	w.xStreams = map[string]*stream.Stream{}
+	subs := map[string]*stream.SubStream{}
+	for _, n := range verifC03PXPaths {
+		desc := &description.Session{Medias: []*description.Media{test.MediaH264}}
+		st := &stream.Stream{OrigDesc: desc, WriteQueueSize: 512, RTPMaxPayloadSize: 1450, Parent: test.NilLogger}
+		if err := st.Initialize(); err != nil {
+			panic(err)
+		}
+		sub := &stream.SubStream{Stream: st, UseRTPPackets: false}
+		if err := sub.Initialize(); err != nil {
+			panic(err)
+		}
+		w.xStreams[n], subs[n] = st, sub
+	}
+	to := conf.Duration(5 * time.Second)
+	w.hlsXAddr = verifC03PFreeTCP()
+	w.hlsX = &hls.Server{
+		Address: w.hlsXAddr, AlwaysRemux: true, Variant: conf.HLSVariant(gohlslib.MuxerVariantMPEGTS), SegmentCount: 7,
+		SegmentDuration: conf.Duration(time.Second), PartDuration: conf.Duration(200 * time.Millisecond),
+		SegmentMaxSize: 50 * 1024 * 1024, ReadTimeout: to, WriteTimeout: to, MuxerCloseAfter: conf.Duration(time.Hour),
+		PathManager: w, Parent: test.NilLogger,
+	}
+	if err := w.hlsX.Initialize(); err != nil {
+		panic(err)
+	}
+	for _, n := range verifC03PXPaths {
+		w.hlsX.PathReady(&verifC03PPath{n})
+	}
+	for _, n := range verifC03PXPaths {
+		w.xStreams[n].WaitForReaders()
+		for i := 0; i < 6; i++ {
+			subs[n].WriteUnit(test.MediaH264, test.FormatH264, &unit.Unit{PTS: int64(i) * 90000, Payload: unit.PayloadH264{{5, 1}}})
+		}
+	}
+}
+
+var verifC03PReSession = regexp.MustCompile(`(?m)^([^#\s][^?\s]*)\?(?:.*&)?session=([0-9a-fA-F-]+)`)
+
+// hlsCross: open a session on path a with the given credentials, then ask for the SAME media playlist of path b
+// with a's session secret.  Returns the op's events: the stub's requests plus one `m` event per media answer.
+func (w *verifC03PWorld) hlsCross(a, b, user, pass string) (string, []string) {
+	w.mu.Lock()
+	w.capture, w.capOn = nil, true
+	w.mu.Unlock()
+	defer func() { w.mu.Lock(); w.capOn = false; w.mu.Unlock() }()
+	get := func(u string) (int, string) {
+		req, err := http.NewRequest(http.MethodGet, u, nil)
+		if err != nil {
+			return 0, ""
+		}
+		if user != "" || pass != "" {
+			req.SetBasicAuth(user, pass)
+		}
+		res, err := w.hc.Do(req)
+		if err != nil {
+			return 0, ""
+		}
+		defer res.Body.Close()
+		body, _ := io.ReadAll(io.LimitReader(res.Body, 1<<20))
+		return res.StatusCode, string(body)
+	}
+	base := "http://" + w.hlsXAddr + "/"
+	st, body := get(base + a + "/index.m3u8?cookieCheck=1")
+	if st != http.StatusOK {
+		return fmt.Sprintf("nosession%d", st), nil
+	}
+	m := verifC03PReSession.FindStringSubmatch(body)
+	if m == nil {
+		return "nosecret", nil
+	}
+	var media []string
+	user, pass = "", "" // the secret alone identifies the session from now on
+	for _, dir := range []string{a, b} {
+		st, _ = get(base + dir + "/" + m[1] + "?session=" + m[2])
+		media = append(media, fmt.Sprintf("m:%s:0:0:0:%s:0", verifutil.HexS(dir), verifC03B(st == http.StatusOK)))
+	}
+	return "ok", media
+}
+
 func (w *verifC03PWorld) close() {
+	w.hlsX.Close()
 	w.rtspS.Close()
 	w.rtmpS.Close()
 	w.srtS.Close()
@@ -536,6 +638,16 @@ func verifC03PExec(f []string) string {
 			}
 			c.Close()
 		}
+	case "hlsx":
+		// proto hlsx read 0 <pathA> <user> <pass> <expect> <pathB>
+		r, media := w.hlsCross(name, verifutil.UnHexS(f[8]), user, pass)
+		w.mu.Lock()
+		evs := append(append([]string{}, w.capture...), media...)
+		w.mu.Unlock()
+		if len(evs) == 0 {
+			return r + " -"
+		}
+		return r + " " + strings.Join(evs, ";")
 	case "hls", "webrtc":
 		// proto <hls|webrtc> <mode> 0 <name> <user> <pass> <expect> <variant> <trusted 0|1> <xff|->
 		tp, xff := verifutil.Atoi(f[9]), f[10]
@@ -613,6 +725,30 @@ func verifC03PGen(r *verifutil.Rand, us []string, n int) []string {
 		}
 		expect := verifC03PAdmit(users, a)
 		ops = append(ops, fmt.Sprintf("proto %s %s 0 %s %s %s %s%s", proto, mode, verifutil.HexS(name), verifutil.HexS(id.u), verifutil.HexS(id.p), verifC03B(expect), extra))
+	}
+	return ops
+}
+
+// verifC03PGenCross: a history of its own — two HLS paths with different permissions, sessions opened on one of them
+// and used for the other one.
+func verifC03PGenCross(r *verifutil.Rand) []string {
+	h := verifutil.HexS
+	us := []string{
+		fmt.Sprintf("U%s,%s,-,read@%s", h("va"), h("pa"), h("hxa")),
+		fmt.Sprintf("U%s,%s,-,read@%s", h("vb"), h("pb"), h("hxb")),
+		fmt.Sprintf("U%s,%s,-,read@%s", h("vre"), h("pr"), h("~^hx")),
+	}
+	ops := []string{"reset C" + h("all_others") + ",a,-,1,1 " + strings.Join(us, " ")}
+	users := verifC03PParseUsers(us)
+	for _, c := range [][4]string{
+		{"hxa", "hxb", "va", "pa"}, {"hxb", "hxa", "vb", "pb"}, {"hxa", "hxa", "va", "pa"}, {"hxa", "hxb", "vre", "pr"},
+		{"hxa", "hxb", "va", "wrong"}, {"hxb", "hxa", "va", "pa"}, {"hxa", "hxb", "", ""},
+	} {
+		if r.Chance(1, 4) {
+			continue
+		}
+		a := &defs.PathAccessRequest{Name: c[0], Credentials: &auth.Credentials{User: c[2], Pass: c[3]}, IP: net.ParseIP("127.0.0.1")}
+		ops = append(ops, fmt.Sprintf("proto hlsx read 0 %s %s %s %s %s", h(c[0]), h(c[2]), h(c[3]), verifC03B(verifC03PAdmit(users, a)), h(c[1])))
 	}
 	return ops
 }
